@@ -157,6 +157,7 @@ def runCase (c : FCase) (tree : TaskNode) : String :=
   go c.batches ps0 ""
 
 def funnelLine (line : String) : String :=
+  if line.startsWith "skip" then "skipped" else
   match parseCase line with
   | some c => match c.tree with
     | some t => runCase c t
@@ -206,6 +207,7 @@ def parseLog (s : String) : Option (List Ev) :=
   if body = "" then some [] else (body.splitOn " ; ").mapM fun t => parseEv t.trimAscii.toString
 
 def funnelMonLine (line : String) : String :=
+  if line.startsWith "skip" then "ok" else
   match line.splitOn " ## " with
   | [cs, lg] =>
     match parseCase cs, parseLog lg with
